@@ -1,1 +1,1 @@
-import QibModel.Driver
+import QibModel.BackendOps
